@@ -116,10 +116,10 @@ func (x *Exec) oblige(st *State, kind string, goal *Term, pos token.Pos, note st
 	if st.pc == False {
 		return
 	}
-	if x.job.fn != nil && x.cutsOnly() && !strings.HasPrefix(kind, "assert(before ") && !strings.HasPrefix(kind, "inv-") {
+	if x.job.fn != nil && x.cutsOnly() && !strings.HasPrefix(kind, "assert(before ") && !strings.HasPrefix(kind, "inv-") && kind != "ensures" {
 		// a function checked for its cuts only: its other proof obligations (run-time safety, callees' preconditions,
 		// frame) are not generated here; executions on which they fail are outside what the cuts speak about
-		x.trusted["CUTS-ONLY "+x.job.Name+": only the `before` cuts are decided; run-time safety and callee preconditions inside this function are assumed"] = true
+		x.trusted["CUTS-ONLY "+x.job.Name+": only the `before` cuts, loop invariants and postconditions are decided; run-time safety and callee preconditions inside this function are assumed"] = true
 		x.assumeFact(st, goal)
 		return
 	}
@@ -636,6 +636,12 @@ func (x *Exec) ptrOf(v *Val) *Pointer {
 	if _, isStruct := pt.Elem().Underlying().(*types.Struct); isStruct {
 		return &Pointer{kind: pkObj, ref: v.T, objT: pt.Elem()}
 	}
+	if x.job != nil && x.job.fn != nil && x.cutsOnly() && v.T != nil {
+		// cuts-only functions: pointers to scalars of unknown origin (a decoded *string field) live in one heap map
+		// per pointee type, separate from the cells of address-taken locals
+		x.trusted["A-SCALARPTR: pointers to non-struct values that were not created in the function itself are read through one heap map per pointee type, assumed not to alias the function's own address-taken locals"] = true
+		return &Pointer{kind: pkCell, ref: v.T, objT: pt.Elem(), cell: "pstar." + types.TypeString(pt.Elem(), nil)}
+	}
 	unsupportedf("pointer to non-struct %s without a known cell", v.Typ)
 	return nil
 }
@@ -678,7 +684,7 @@ func (x *Exec) run(fr *Frame, st0 *State) (*Val, *State) {
 	var rets []edgeState
 	var retVals []*Val
 	var cutReachSet map[*ssa.BasicBlock]bool
-	if fr.caller == nil && fr.contract != nil && fr.contract.CutsOnly && x.pure == 0 {
+	if fr.caller == nil && fr.contract != nil && fr.contract.CutsOnly && x.pure == 0 && fr.contract.trivialEnsures() {
 		cutReachSet = cutReach(fr.contract, fn)
 	}
 	for _, b := range li.rpo {
@@ -1612,6 +1618,16 @@ func (x *Exec) makeInterface(st *State, v *Val, ifaceT types.Type) *Val {
 	tag := IntLit(int64(TE.TagOf(v.Typ)))
 	x.checkInv(st, v, token.NoPos, "when converted to an interface")
 	if _, isPtr := v.Typ.Underlying().(*types.Pointer); isPtr {
+		if v.T == nil && v.Ptr != nil && x.job.fn != nil && x.cutsOnly() && x.pure == 0 {
+			// &local handed to a dependency as `any` (json.Unmarshal(data, &v)): in a cuts-only function the pointee is
+			// given an arbitrary value here - whatever the callee writes through the pointer is covered
+			pt := v.Typ.Underlying().(*types.Pointer).Elem()
+			if fv := x.freshVal(st, "boxedptr", pt); fv.T != nil {
+				x.store(st, v.Ptr, fv.T)
+				x.trusted["A-BOXPTR: a pointer to a local variable converted to an interface (argument of a dependency such as json.Unmarshal) - the variable holds an arbitrary value from that point on; the dependency is assumed to write it only during that call"] = true
+				return &Val{T: mkIface(tag, Fresh("boxedref", SInt)), Typ: ifaceT}
+			}
+		}
 		if v.T == nil {
 			unsupportedf("MakeInterface of structured pointer")
 		}
@@ -2275,4 +2291,14 @@ func (x *Exec) unboundBind(fr *Frame, cl *Clause) string {
 		return true
 	})
 	return out
+}
+
+// trivialEnsures: the contract promises nothing about the function's results (every ensures clause is `true`).
+func (c *Contract) trivialEnsures() bool {
+	for _, cl := range c.Clauses {
+		if cl.Kind == "ensures" && strings.TrimSpace(cl.Src) != "true" {
+			return false
+		}
+	}
+	return true
 }
